@@ -865,6 +865,11 @@ func genPlan() *rapid.Generator[Plan] {
 				}
 			}
 			pl.Regs = append(pl.Regs, r)
+			if fresh && !dup(toks) && rapid.IntRange(0, 5).Draw(t, "latelistener") == 0 {
+				// a listener added to the pattern after its handler (and after lookups, when
+				// lookups are interleaved)
+				pl.Regs = append(pl.Regs, Reg{Full: append([]string(nil), toks...), At: r.At, Marker: 300 + i, ListenerOnly: true})
+			}
 		}
 		return pl
 	})
